@@ -86,7 +86,8 @@ Lemma aprod_q_qprod : forall l, aprod alg_q l = qprod l.
 Proof. reflexivity. Qed.
 
 Section General.
-  Variables (g : graph) (r : nat) (phi : Q) (u : nat -> Q).
+  Variables (ord : list nat -> list nat) (g : graph) (r : nat) (phi : Q) (u : nat -> Q).
+  Hypothesis Hord : forall l, Permutation (ord l) l.
   Hypothesis Hwf : wf_graph g = true.
   Hypothesis Hr : In r (g_nodes g).
   Let nodes := g_nodes g.
@@ -108,21 +109,21 @@ Section General.
   Proof. ring. Qed.
 
   (* the enumerated vertex sets *)
-  Lemma enum_grown : forall c, In c (enum g r) -> grown es r c.
+  Lemma enum_grown : forall c, In c (enum_ord ord g r) -> grown es r c.
   Proof.
     intros c Hc.
-    apply (proj1 (enum_general_wf (fun l => l) g r (fun l => Permutation_refl l) Hwf) c Hc).
+    apply (proj1 (enum_general_wf ord g r Hord Hwf) c Hc).
   Qed.
   Lemma enum_once : forall T, grown es r T -> (forall v, memb v T = true -> In v nodes) ->
-      cnt T (enum g r) = 1%nat.
+      cnt T (enum_ord ord g r) = 1%nat.
   Proof.
     intros T HT Hn.
-    apply (proj2 (enum_general_wf (fun l => l) g r (fun l => Permutation_refl l) Hwf) T HT Hn).
+    apply (proj2 (enum_general_wf ord g r Hord Hwf) T HT Hn).
   Qed.
 
   (* (1) for every edge subset, the leaf value is the sum over the enumerated sets of indicator * product *)
   Lemma leaf_decomp : forall S, incl S es ->
-      leafF S == qsum (map (fun c => Gc c * ind c S) (enum g r)).
+      leafF S == qsum (map (fun c => Gc c * ind c S) (enum_ord ord g r)).
   Proof.
     intros S HS.
     assert (HSe : ends_in nodes S) by (apply (ends_in_incl nodes S es HS He)).
@@ -244,7 +245,7 @@ Section General.
     rewrite E1, E2. ring.
   Qed.
 
-  Lemma term_eq : forall c, In c (enum g r) ->
+  Lemma term_eq : forall c, In c (enum_ord ord g r) ->
       term_of alg_q g r phi u c (combos_for g c) == Gc c * wsr phi (1 - phi) es (ind c).
   Proof.
     intros c Hc. pose proof (enum_grown c Hc) as Hg.
@@ -258,17 +259,33 @@ Section General.
       + exact (term_general (v :: w :: c') Hg Hn).
   Qed.
 
-  (* THE GENERAL IDENTITY *)
-  Theorem identity_general_at : auto_q g r phi u == expectation g r phi u.
+  (* THE GENERAL IDENTITY, for whatever order the candidate sets are iterated in *)
+  Theorem identity_general_ord :
+      qsum (map (fun c => term_of alg_q g r phi u c (combos_for g c)) (enum_ord ord g r))
+      == expectation g r phi u.
   Proof.
-    unfold auto_q, auto_gen. rewrite asum_q_qsum.
-    rewrite (qsum_ext _ (fun c => Gc c * wsr phi (1 - phi) es (ind c)) (enum g r) term_eq).
-    rewrite <- (wsr_qsum phi (1 - phi) (enum g r) Gc ind es).
+    rewrite (qsum_ext _ (fun c => Gc c * wsr phi (1 - phi) es (ind c)) (enum_ord ord g r) term_eq).
+    rewrite <- (wsr_qsum phi (1 - phi) (enum_ord ord g r) Gc ind es).
     rewrite <- (wsr_ext phi (1 - phi) es leafF _ leaf_decomp).
     unfold expectation. rewrite wsr_flat. apply qsum_ext. intros S _. reflexivity.
   Qed.
 End General.
 
+(* the automated equation under the iteration-order schedule [ord] *)
+Definition auto_q_ord (ord : list nat -> list nat) (g : graph) (r : nat) (phi : Q) (u : nat -> Q) : Q :=
+  asum alg_q (map (fun c => term_of alg_q g r phi u c (combos_for g c)) (enum_ord ord g r)).
+
+Lemma auto_q_ord_id : forall g r phi u, auto_q_ord (fun l => l) g r phi u = auto_q g r phi u.
+Proof. reflexivity. Qed.
+
+Theorem identity_general_any_order : forall (ord : list nat -> list nat) (g : graph) (r : nat),
+    (forall l, Permutation (ord l) l) -> wf_graph g = true -> In r (g_nodes g) ->
+    forall (phi : Q) (u : nat -> Q), auto_q_ord ord g r phi u == expectation g r phi u.
+Proof. intros ord g r Hord Hwf Hr phi u. exact (identity_general_ord ord g r phi u Hord Hwf Hr). Qed.
+
 Theorem identity_general : forall (g : graph) (r : nat), wf_graph g = true -> In r (g_nodes g) ->
     forall (phi : Q) (u : nat -> Q), auto_q g r phi u == expectation g r phi u.
-Proof. intros g r Hwf Hr phi u. exact (identity_general_at g r phi u Hwf Hr). Qed.
+Proof.
+  intros g r Hwf Hr phi u. rewrite <- auto_q_ord_id.
+  apply identity_general_any_order; [intros l; apply Permutation_refl|exact Hwf|exact Hr].
+Qed.
